@@ -1,9 +1,11 @@
 #!/bin/bash
 # Re-confirms every seeded change against /repo's HEAD in one scratch worktree:
 #   existing tests pass with the patch; demo fails with the patch; demo passes without it.
-WT=$(mktemp -d /tmp/confirm.XXXXXX); export CARGO_TARGET_DIR=/tmp/confirm-target CARGO_NET_OFFLINE=true
+# SHARD=i NSHARDS=n runs every n-th seed starting at i (several shards can run at once, each in its own worktree).
+SHARD=${SHARD:-0}; NSHARDS=${NSHARDS:-1}
+WT=$(mktemp -d /tmp/confirm.XXXXXX); export CARGO_TARGET_DIR=/tmp/confirm-target-$SHARD CARGO_NET_OFFLINE=true
 cd /repo && git worktree add -q --detach "$WT" HEAD || exit 2
-trap 'cd /repo; git worktree remove --force "$WT"; rm -rf /tmp/confirm-target' EXIT
+trap 'cd /repo; git worktree remove --force "$WT"; rm -rf /tmp/confirm-target-'$SHARD EXIT
 cd "$WT"
 add_demo() { # $1 seed dir
   if [ -f "$1/apply_demo.sh" ]; then
@@ -27,14 +29,17 @@ open(p,'w').write(s[:-1]+"\n"+open(d).read()+"\n}\n")
 PY
   fi
 }
+N=-1
 for d in /verif/seeded/*/; do
   id=$(basename $d)
+  N=$((N+1)); [ $((N % NSHARDS)) = "$SHARD" ] || continue
+  FEAT=$(python3 -c "import json;f=json.load(open('$d/meta.json')).get('features');print('--features '+f if f else '')")
   git checkout -q -- .; git apply --whitespace=nowarn $d/patch.diff || { echo "$id: PATCH DOES NOT APPLY"; continue; }
-  a=$(cargo test --offline 2>&1 | grep "^test result" | head -1 | sed 's/; 0 ignored.*//')
+  a=$(cargo test --offline $FEAT 2>&1 | grep "^test result" | head -1 | sed 's/; 0 ignored.*//')
   add_demo $d
-  b=$(cargo test --offline 2>&1 | grep "^test result\|^error" | head -1 | sed 's/; [0-9]* ignored.*//')
+  b=$(cargo test --offline $FEAT 2>&1 | grep "^test result\|^error" | head -1 | sed 's/; [0-9]* ignored.*//')
   git checkout -q -- .; add_demo $d
-  c=$(cargo test --offline 2>&1 | grep "^test result\|^error" | head -1 | sed 's/; [0-9]* ignored.*//')
+  c=$(cargo test --offline $FEAT 2>&1 | grep "^test result\|^error" | head -1 | sed 's/; [0-9]* ignored.*//')
   echo "$id | patched suite: $a | patched+demo: $b | unpatched+demo: $c"
 done
 git checkout -q -- .
